@@ -8,7 +8,7 @@ use crate::float::{oracle_f32, oracle_f64};
 fn rne_fixed(m: u64, e: i32, f: u32) -> u64 {
     if m == 0 { return 0; }
     let k = e + f as i32;
-    if k >= 0 { if k > 20 { 1 << 40 } else { (m << k).min(1 << 40) } }
+    if k >= 0 { if k > 20 { 1 << 40 } else { let v = (m as u128) << k; if v > (1 << 40) { 1 << 40 } else { v as u64 } } }
     else {
         let s = (-k) as u32;
         if s >= 64 { return 0; }
@@ -31,45 +31,57 @@ fn decode64(bits: u64) -> (bool, u64, i32, u8) {
 }
 
 macro_rules! from_float {
-    ($name:ident, $Fixed:ident, $T:ty, $signed:expr, $FT:ident, $BT:ty, $decode:ident) => {
+    ($name:ident, $Fixed:ident, $T:ty, $signed:expr, $F:ident, $f:expr, $FT:ident, $BT:ty, $decode:ident) => {
         #[cfg(kani)]
         #[kani::proof]
         pub fn $name() {
             let bits: $BT = kani::any();
-            let f = any_frac8();
             let (neg, m, e, class) = $decode(bits);
             let x = $FT::from_bits(bits);
-            with_frac8!(f, F => {
-                let fx = |b: i64| $Fixed::<F>::from_bits(b as $T);
-                let (min, max): (i64, i64) = if $signed { (-128, 127) } else { (0, 255) };
-                if class == 2 {
-                    assert!($Fixed::<F>::checked_from_num(x).is_none());
-                } else if class == 1 {
-                    assert!($Fixed::<F>::checked_from_num(x).is_none());
-                    assert!($Fixed::<F>::saturating_from_num(x) == fx(if neg { min } else { max }));
-                } else {
-                    let mag = rne_fixed(m, e, f) as i64;
-                    let r = if neg { -mag } else { mag };
-                    let fits = r >= min && r <= max;
-                    let wrapped = if $signed { (r as i8) as i64 } else { (r as u8) as i64 };
-                    assert!($Fixed::<F>::checked_from_num(x) == if fits { Some(fx(r)) } else { None });
-                    assert!($Fixed::<F>::saturating_from_num(x) == fx(if r < min { min } else if r > max { max } else { r }));
-                    if mag < (1 << 40) {
-                        assert!($Fixed::<F>::overflowing_from_num(x) == (fx(wrapped), !fits));
-                        assert!($Fixed::<F>::wrapping_from_num(x) == fx(wrapped));
-                    } else {
-                        assert!($Fixed::<F>::overflowing_from_num(x).1);
-                    }
-                    if fits { assert!($Fixed::<F>::from_num(x) == fx(r)); }
-                }
-            });
+            type Fx = $Fixed<$F>;
+            let fx = |b: i64| Fx::from_bits(b as $T);
+            let (min, max): (i64, i64) = if $signed { (-128, 127) } else { (0, 255) };
+            if class == 2 {
+                assert!(Fx::checked_from_num(x).is_none());
+            } else if class == 1 {
+                assert!(Fx::checked_from_num(x).is_none());
+                assert!(Fx::saturating_from_num(x) == fx(if neg { min } else { max }));
+            } else {
+                let mag = rne_fixed(m, e, $f) as i64;
+                let r = if neg { -mag } else { mag };
+                let fits = r >= min && r <= max;
+                let wrapped = if $signed { (r as i8) as i64 } else { (r as u8) as i64 };
+                assert!(Fx::checked_from_num(x) == if fits { Some(fx(r)) } else { None });
+                assert!(Fx::saturating_from_num(x) == fx(if r < min { min } else if r > max { max } else { r }));
+                let (w, o) = Fx::overflowing_from_num(x);
+                assert!(o == !fits);
+                if mag < (1 << 40) { assert!(w == fx(wrapped)); }
+            }
         }
     };
 }
-from_float!(i8_from_f32, FixedI8, i8, true, f32, u32, decode32);
-from_float!(u8_from_f32, FixedU8, u8, false, f32, u32, decode32);
-from_float!(i8_from_f64, FixedI8, i8, true, f64, u64, decode64);
-from_float!(u8_from_f64, FixedU8, u8, false, f64, u64, decode64);
+macro_rules! from_float_all {
+    ($($n:ident, $F:ident, $f:expr;)*) => { $(
+        pub mod $n {
+            use super::*;
+            from_float!(i8_from_f32, FixedI8, i8, true, $F, $f, f32, u32, decode32);
+            from_float!(u8_from_f32, FixedU8, u8, false, $F, $f, f32, u32, decode32);
+            from_float!(i8_from_f64, FixedI8, i8, true, $F, $f, f64, u64, decode64);
+            from_float!(u8_from_f64, FixedU8, u8, false, $F, $f, f64, u64, decode64);
+        }
+    )* };
+}
+from_float_all! { g0, U0, 0; g1, U1, 1; g2, U2, 2; g3, U3, 3; g4, U4, 4; g5, U5, 5; g6, U6, 6; g7, U7, 7; g8, U8, 8; }
+// the wrapping form is the value part of the overflowing form
+#[cfg(kani)]
+#[kani::proof]
+pub fn wrapping_is_overflowing_value() {
+    let bits: u32 = kani::any();
+    let x = f32::from_bits(bits);
+    kani::assume(x.is_finite());
+    assert!(FixedI8::<U3>::wrapping_from_num(x) == FixedI8::<U3>::overflowing_from_num(x).0);
+    assert!(FixedU8::<U8>::wrapping_from_num(x) == FixedU8::<U8>::overflowing_from_num(x).0);
+}
 
 // NaN panics in the non-checked forms; infinity panics in the non-saturating ones
 #[cfg(kani)]
